@@ -108,12 +108,20 @@ func (mi *MessageInfo) initOneofFieldCoders(od protoreflect.OneofDescriptor, si 
 		srcinfo.funcs.merge(dstp, srcp, srcinfo, opts)
 	}
 	if needIsInit {
-		first.funcs.isInit = func(p pointer, _ *coderFieldInfo) error {
+		isInit := func(p pointer, _ *coderFieldInfo) error {
 			p, info := getInfo(p)
 			if info == nil || info.funcs.isInit == nil {
 				return nil
 			}
 			return info.funcs.isInit(p, info)
+		}
+		first.funcs.isInit = isInit
+		// Unmarshal consults isInit of the member it has just decoded,
+		// which need not be the first field of the oneof.
+		for _, cf := range oneofFields {
+			if cf.funcs.isInit != nil {
+				mi.coderFields[cf.num].funcs.isInit = isInit
+			}
 		}
 	}
 }
